@@ -413,10 +413,15 @@ def rule_Q4(ctx):
     for path, q in ((ACT, "attempt_parse_cue_sheet"), ("smpl_extract/cdda/image.py", "CompactDiskAudioImageAdapter.from_bin_cue")):
         fn = ctx.fn(path, q, "Q4")
         for c in own_nodes(fn):
-            if isinstance(c, ast.Compare) and len(c.ops) == 1 and isinstance(c.comparators[0], ast.Constant) and isinstance(c.comparators[0].value, str) \
-                    and c.comparators[0].value.lower() == "audio":
+            # every test that looks at a track's mode (==, !=, in, not in, whatever it is compared with)
+            if isinstance(c, ast.Compare) and any(isinstance(x, ast.Attribute) and x.attr == "mode" for side in [c.left] + list(c.comparators) for x in ast.walk(side)):
                 n += 1
-                ok = norm(c.left).endswith(".mode.lower()") and c.comparators[0].value == "audio"
+                rhs = c.comparators[0] if len(c.comparators) == 1 else None
+                try:
+                    rv = ctx.folder.ev(rhs, fn._module) if rhs is not None else None
+                except Exception:
+                    rv = None
+                ok = len(c.ops) == 1 and isinstance(c.ops[0], (ast.Eq, ast.NotEq)) and norm(c.left).endswith(".mode.lower()") and rv == "audio"
                 ctx.ob("Q4", c, "track mode is compared case-insensitively with 'audio'", ok, norm(c), inst=f"{q}:{norm(c)}")
     if n < 2:
         raise AnalysisError("Q4", "-", f"{n} mode comparisons found (confirmed: 3; at least the data-track test and the CDDA track filter)")
